@@ -35,6 +35,9 @@ var lisN int32
 
 // ReplayListener performs the operations of the predicted history on a fresh listener.
 func ReplayListener(c LCase) LResult {
+	if c.Cfg.Kind == "srv2" {
+		return replayServerListeners(c)
+	}
 	res := LResult{N: c.N, Cfg: c.Cfg, Matched: true}
 	bg := context.Background()
 	var lis lime.TransportListener
@@ -163,4 +166,73 @@ func hangAfter(kind string) time.Duration {
 		return 120 * time.Millisecond
 	}
 	return 700 * time.Millisecond
+}
+
+// replayServerListeners: a Server with two listeners, the first of which was closed behind the server's
+// back, so that its Close reports an error when the server closes. The second one must be closed all the
+// same: a dial to it after Server.Close is refused. (Cfg.URL picks the kind of the first listener.)
+func replayServerListeners(c LCase) LResult {
+	res := LResult{N: c.N, Cfg: c.Cfg, Matched: true}
+	bg := context.Background()
+	var first lime.TransportListener
+	if c.Cfg.URL == "ws" {
+		first = lime.NewWebsocketTransportListener(&lime.WebsocketConfig{})
+	} else {
+		first = lime.NewTCPTransportListener(&lime.TCPConfig{})
+	}
+	second := lime.NewTCPTransportListener(&lime.TCPConfig{})
+	cfg := lime.NewServerConfig()
+	var srv *lime.Server
+	var addrB *net.TCPAddr
+	done := make(chan error, 1)
+	started := false
+	for try := 0; try < 30 && !started; try++ {
+		a, b := nextAddr(), nextAddr()
+		srv = lime.NewServer(cfg, &lime.EnvelopeMux{}, lime.NewBoundListener(first, a), lime.NewBoundListener(second, b))
+		go func(s *lime.Server) { done <- s.ListenAndServe() }(srv)
+		select {
+		case <-done:
+			_ = first.Close()
+			_ = second.Close()
+		case <-time.After(40 * time.Millisecond):
+			started, addrB = true, b
+		}
+	}
+	if !started {
+		res.Note = "setup: the server did not start"
+		res.Matched = false
+		return res
+	}
+	res.Actual = append(res.Actual, LEv{K: "op", Op: "listen", Res: "ok"})
+	_ = first.Close() // behind the server's back
+	cerr := make(chan error, 1)
+	go func() { cerr <- srv.Close() }()
+	ev := LEv{K: "op", Op: "close"}
+	select {
+	case err := <-cerr:
+		ev.Res = classify(err)
+		if ev.Res == "timeout" {
+			ev.Res = "err"
+		}
+	case <-time.After(3 * time.Second):
+		ev.Res = "hang"
+	}
+	res.Actual = append(res.Actual, ev)
+	time.Sleep(20 * time.Millisecond)
+	ctx, cancel := context.WithTimeout(bg, 400*time.Millisecond)
+	t, err := lime.DialTcp(ctx, addrB, nil)
+	cancel()
+	d := LEv{K: "op", Op: "dial", Res: "err"}
+	if err == nil {
+		d.Res = "ok"
+		_ = t.Close()
+		_ = second.Close()
+	}
+	res.Actual = append(res.Actual, d)
+	for i, p := range c.Obs {
+		if i >= len(res.Actual) || !(res.Actual[i].Res == p.Res || (p.Res == "ok|err" && (res.Actual[i].Res == "ok" || res.Actual[i].Res == "err"))) {
+			res.Matched = false
+		}
+	}
+	return res
 }
